@@ -199,6 +199,13 @@ pub fn incr_main(job: &Value) -> i32 {
                 "delete" => {
                     let _ = std::fs::remove_file(path_of(&root, &op["path"]));
                 }
+                "symlink" => {
+                    let pth = path_of(&root, &op["path"]);
+                    if let Some(parent) = pth.parent() {
+                        let _ = std::fs::create_dir_all(parent);
+                    }
+                    let _ = std::os::unix::fs::symlink(op["to"].as_str().unwrap(), &pth);
+                }
                 "rename" => {
                     let to = path_of(&root, &op["to"]);
                     if let Some(parent) = to.parent() {
